@@ -42,17 +42,19 @@ Definition true_chain (l : list bdata) : bool :=
 
 Definition forged (l : list bdata) : bool := existsb (fun b => negb (hash_matches b)) l.
 
+Definition has_nil_header (l : list bdata) : bool :=
+  existsb (fun b => match d_header b with None => true | Some _ => false end) l.
+
 (* must this result be rejected?  Completed, and either a block whose stated hash differs from
-   the hash of its header, or (headers requested and all present) two consecutive blocks, read in
-   ascending order, that are not parent and child by header hash and number *)
+   the hash of its header, or headers were requested and the response, read in ascending order,
+   lacks a header or has two consecutive blocks that are not parent and child by HEADER hash and
+   number *)
 Definition must_reject (r : result) : bool :=
   let q := r_req r in
   let resp := if q_dir q =? dir_desc then rev (r_resp r) else r_resp r in
   r_completed r
   && (forged resp
-      || (req_field q f_header
-          && forallb (fun b => match d_header b with Some _ => true | None => false end) resp
-          && negb (true_chain resp))).
+      || (req_field q f_header && (has_nil_header resp || negb (true_chain resp)))).
 
 (* acc: the observed decisions of validateResults, one per result *)
 Fixpoint rejections_ok_b (rs : list result) (acc : list bool) : bool :=
@@ -96,6 +98,14 @@ Fixpoint observe (bad : list N) (steps : list step) (outs : list (option presult
 Definition result_wf_b (r : result) : bool := req_field (r_req r) f_body.
 Definition result_weight (r : result) : nat :=
   if req_field (r_req r) f_header then 1%nat else length (r_resp r).
+(* only the second condition: every request asks for bodies *)
+Definition steps_body_b (steps : list step) : bool :=
+  forallb (fun s => match s with SProcess rs => forallb result_wf_b rs | _ => true end) steps.
+
+(* every event of the importer during a run, in order *)
+Definition all_events (outs : list (option presult)) : list event :=
+  flat_map (fun o => match o with Some r => pr_events r | None => [] end) outs.
+
 Definition steps_wf_b (steps : list step) : bool :=
   forallb (fun s => match s with
                     | SProcess rs =>
